@@ -581,8 +581,147 @@ def job_float_probe(cfg):
     return res
 
 
+class _OutsideContract(Exception):
+    pass
+
+
+def job_damage_step(cfg):
+    """'For the damage-based solvers the damage at each node never decreases between saved steps' as ONE INDUCTIVE STEP of the real
+    Simulations.PhaseField.Solve(): the damage stored at the previous save is an arbitrary symbolic field in [0, 9/10]^n, every linear solve inside
+    the staggered loop is replaced by its CONTRACT only - HistoryDamage: any vector in [-1, 2]^n (an unconstrained solve can return anything);
+    BoundConstrain: any vector with lb <= x <= ub for the bounds the code handed to lsq_linear (vectors outside are enumerated as regions 'outside
+    the contract' and carry no obligation); the displacement solve returns a symbolic multiple of a fixed vector.  Everything else - the loop, the
+    convergence test (convOption 0: linear in the symbols), Get_lb_ub, the final max with the old damage, Save_Iter - is the real code.
+    Obligation, for all those values: returned, live and STORED damage >= the damage of the previous save, at every node."""
+    from EasyFEA import Models, Simulations
+    import EasyFEA.Simulations.Solvers as S
+
+    res = JobResult(cfg)
+    c = new_context()
+    facade.install()
+    solver, maxIter, tolConv, nfree, need_cover = cfg["solver"], cfg["maxIter"], cfg["tolConv"], cfg["nfree"], cfg.get("cover", True)
+    key = f"damage step (solver {solver}, at most {maxIter - 1 if tolConv == 1 else maxIter} staggered iteration(s), {nfree} free damage node(s))"
+    res.functions |= {"Simulations.PhaseField.Solve", "Simulations.PhaseField.Get_lb_ub", "Simulations.PhaseField.Save_Iter", "Simulations.PhaseField.__Solve_damage", "Simulations.PhaseField.__Solve_elastic",
+                      "Solvers.Solve_simu", "Solvers.__Solver_1", "_Simu._Solver_Update_solutions"}
+    X = np.array([[0, 0, 0], [1, 0, 0], [0.25, 1, 0]], dtype=float)
+    mesh = simlib.mesh_from_arrays([("TRI3", [[0, 1, 2]]), ("SEG2", [[0, 1], [1, 2], [2, 0]])], X)
+    mat = make_material("iso-strain")
+    pfm = Models.PhaseField(mat, "Bourdin", "AT2", Gc=1.0, l0=0.1, solver=solver)
+    n = mesh.Nn
+    bounded = solver == "BoundConstrain"
+    d0 = [c.var(f"d_old{i}", 0, Fraction(9, 10), shadow=Fraction([3, 5, 2][i], 10)) for i in range(n)]
+    # solver outputs, one vector per staggered iteration
+    xs = [[c.var(f"x{k}_{i}", 0, 1, shadow=Fraction([1, 6, 4][(i + k) % 3], 10)) if bounded else c.var(f"x{k}_{i}", -1, 2, shadow=Fraction([-7, 8, 2][(i + k) % 3], 10))
+           for i in range(nfree)] for k in range(maxIter)]
+    amp = [c.var(f"amp{k}", -1, 1, shadow=Fraction(1 + k, 4)) for k in range(maxIter)]
+    res.symbols = n + maxIter * (nfree + 1)
+    uhat = np.array([Fraction(k % 7 - 3, 32) for k in range(3, 3 + 2 * n)], dtype=object)
+    stubtxt = ("Solvers._Solve_Axb -> CONTRACT ONLY: damage problem: " + ("any x with lb <= x <= ub (the bounds handed over by the code)" if bounded else "any x in [-1, 2]^n") +
+               "; displacement problem: a symbolic multiple of a fixed vector")
+
+    def run(d_old, outs, amps, symbolic):
+        calls = {"d": 0, "u": 0}
+
+        def havoc(simu, problemType, A, b, x0, lb, ub, *a, **k):
+            if problemType == simu.ProblemTypes.damage:
+                x = list(outs[calls["d"]])
+                calls["d"] += 1
+                if bounded:
+                    if len(lb) != len(x):
+                        raise RuntimeError("bounds of another size than the system")
+                    for i in range(len(x)):
+                        if x[i] < lb[i] or x[i] > ub[i]:
+                            raise _OutsideContract()
+                return np.array(x, dtype=object if symbolic else float)
+            a_ = amps[calls["u"]]
+            calls["u"] += 1
+            return (uhat * a_) if symbolic else np.array([float(v) for v in uhat]) * a_
+
+        orig = S._Solve_Axb
+        S._Solve_Axb = havoc
+        try:
+            s = Simulations.PhaseField(mesh, pfm, verbosity=False)
+            s._PhaseField__Niter, s._PhaseField__timeIter, s._PhaseField__convIter = 0, 0.0, 0.0
+            s._Set_solutions(s.ProblemTypes.damage, np.array(d_old, dtype=object if symbolic else float))
+            s.Save_Iter()
+            if nfree < n:
+                s.add_dirichlet(np.arange(nfree, n), [0.0], ["d"], s.ProblemTypes.damage)
+            u, d, conv = s.Solve(tolConv, maxIter, 0)
+            live = s.damage
+            s.Save_Iter()
+            stored = s.Get_results(-1)["damage"]
+            first = s.Get_results(0)["damage"]
+            return {"returned": np.asarray(d).copy(), "live": np.asarray(live).copy(), "stored": np.asarray(stored).copy(), "first": np.asarray(first).copy(), "solves": dict(calls)}
+        except _OutsideContract:
+            return None
+        finally:
+            S._Solve_Axb = orig
+
+    def body(k):
+        with facade.symbolic():
+            facade.USED_STUBS.add(stubtxt)
+            return run(d0, xs, amp, True)
+
+    inputs = d0 + [x for l in xs for x in l] + amp
+    regions, status = paths.explore(body, inputs, max_regions=cfg.get("max_regions", 700), label=f"{key} coverage", timeout_ms=60000)
+    res.paths = len(regions)
+    inside = [r for r in regions if r.result is not None]
+    if status.startswith("covered"):
+        res.held(f"{key}: {len(regions)} regions cover the box ({len(inside)} inside the solver contract)", how="exact")
+    elif need_cover:
+        res.record(f"{key}: regions cover the box", Outcome("inconclusive", how="exact", detail=status), None, key=f"{key} coverage")
+    else:
+        res.notes = list(res.notes) + [f"{key}: {len(regions)} regions explored, cover not closed ({status}): the rest of the box is outside the claim"]
+
+    def replay(env):
+        full = {kk: float(v) for kk, v in {**c.shadow, **(env or {})}.items()}
+        dold = [full[_vid(v)] for v in d0]
+        out = run(dold, [[full[_vid(v)] for v in l] for l in xs], [full[_vid(v)] for v in amp], False)
+        if out is None:
+            return False, {"note": "outside the solver contract"}
+        worst = min(float((np.asarray(out[nm], dtype=float) - np.asarray(dold)).min()) for nm in ("returned", "live", "stored"))
+        return worst < -1e-12, {"damage_at_previous_save": dold, "solver_outputs": [[full[_vid(v)] for v in l] for l in xs], "damage_returned": np.asarray(out["returned"], dtype=float).tolist(),
+                                "damage_live_after_Solve": np.asarray(out["live"], dtype=float).tolist(), "damage_stored_by_Save_Iter": np.asarray(out["stored"], dtype=float).tolist()}
+
+    for r in inside:
+        paths.reshadow(c, r.shadow)
+        pcs = list(r.pcs) + list(c.side) + list(c.domain_conds())
+        worst = None
+        for nm in ("stored", "live", "returned"):
+            for i in range(n):
+                e = as_sym(r.result[nm][i]) - d0[i]
+                if e.n.is_zero():
+                    continue
+                o = prove_cond(Cond(e.n, ">=", f"{nm} damage >= damage of the previous save"), pcs, f"{key} {nm}[{i}]")
+                if o.status != "held":
+                    worst = worst or o
+            if worst:
+                break
+        res.record(f"{key} region {r.index}: returned, live and stored damage >= damage of the previous save at every node", worst or Outcome("held", how="exact"), replay, key=f"damage step {solver}: monotone",
+                   sample=None if r.index else {"obligation": f"{key}: for all old damage in [0, 0.9]^{n} and all solver outputs within the contract: damage stored by Save_Iter >= damage of the previous save"})
+        worst = None
+        for i in range(n):
+            e = as_sym(r.result["first"][i]) - d0[i]
+            if not e.n.is_zero():
+                worst = Outcome("cex", env={}, how="structure", detail="the stored previous iteration changed")
+        res.record(f"{key} region {r.index}: the solve did not alter the previously stored damage", worst or Outcome("held", how="normal-form"), lambda env: (True, {"note": "stored iteration 0 differs from the damage saved"}),
+                   key=f"damage step {solver}: stored iteration untouched")
+    # twin: 'the damage strictly increases' must be refuted somewhere
+    tw = False
+    for r in inside[:8]:
+        paths.reshadow(c, r.shadow)
+        pcs = list(r.pcs) + list(c.side) + list(c.domain_conds())
+        e = as_sym(r.result["stored"][0]) - d0[0] - Fraction(1, 100)
+        if prove_cond(Cond(e.n, ">=", "twin"), pcs, "twin").status == "cex":
+            tw = True
+            break
+    res.twin(f"{key} twin", tw and len(inside) >= 1)
+    res.stubs |= facade.USED_STUBS
+    return res
+
+
 def job(cfg):
-    return {"split": job_split, "regu": job_regularisation, "history": job_history, "history_mixed": job_history_mixed, "float_probe": job_float_probe}[cfg["kind"]](cfg)
+    return {"split": job_split, "regu": job_regularisation, "history": job_history, "history_mixed": job_history_mixed, "float_probe": job_float_probe, "damage_step": job_damage_step}[cfg["kind"]](cfg)
 
 
 def main():
@@ -612,6 +751,13 @@ def main():
     for split in (ANISO_SPLITS if tier == "thorough" else ANISO_SPLITS[:4]):
         configs.append({"kind": "float_probe", "split": split, "material": "aniso"})
     configs.append({"kind": "history_mixed"})
+    # damage-based solvers: one inductive step of the real Solve() around contract stubs of the linear solves
+    configs.append({"kind": "damage_step", "solver": "HistoryDamage", "maxIter": 2, "tolConv": 1.0, "nfree": 3})
+    configs.append({"kind": "damage_step", "solver": "HistoryDamage", "maxIter": 2, "tolConv": 2.0 ** -10, "nfree": 1})
+    configs.append({"kind": "damage_step", "solver": "BoundConstrain", "maxIter": 2, "tolConv": 1.0, "nfree": 3})
+    configs.append({"kind": "damage_step", "solver": "BoundConstrain", "maxIter": 2, "tolConv": 2.0 ** -10, "nfree": 3, "cover": False, "max_regions": 60 if tier == "quick" else 200})
+    if tier == "thorough":
+        configs.append({"kind": "damage_step", "solver": "HistoryDamage", "maxIter": 3, "tolConv": 2.0 ** -10, "nfree": 1})
     results = harness.run_jobs(job, configs)
     harness.finish(
         PID, results, t0=t0,
